@@ -132,6 +132,9 @@ fn validate(m: &MShred, cached: Option<&SliceCommitment>, pk: &alpenglow::crypto
         Ok(s) => ValidatedShred::try_new(s, cached, pk).map_err(|e| match e {
             ShredValidationError::Equivocation => "Equivocation".to_string(),
             ShredValidationError::InvalidSignature => "InvalidSignature".to_string(),
+            // tolerate variants added by the code under test (any rejection is a rejection)
+            #[allow(unreachable_patterns)]
+            other => format!("{other:?}"),
         }),
     })
 }
@@ -249,7 +252,11 @@ pub fn run(tier: Tier) -> i32 {
                         Err(p) => report.violation(format!("C12:validation-panics:{}", mu.class), p, replay),
                         Ok(Ok(_)) => {
                             if mu.commitment_unchanged && cname == "identical" {
-                                // the statement allows a cached identical commitment to shortcut verification
+                                // the statement allows a cached identical commitment to shortcut verification;
+                                // what gets through this way must still not hurt the correct leader (oracle 2)
+                                if !passing.iter().any(|(a, b, c, _)| *a == *si && *b == i && c == &format!("{bname}/{}", mu.class)) {
+                                    passing.push((*si, i, format!("{bname}/{}", mu.class), mu.m.clone()));
+                                }
                             } else if !mu.unbound_only {
                                 report.violation(
                                     format!("C12:altered-shred-accepted:{}:cache-{cname}", mu.class),
@@ -295,17 +302,16 @@ pub fn run(tier: Tier) -> i32 {
                     "threshold" => 31,
                     _ => 40,
                 };
-                let mut feed: Vec<ValidatedShred> = Vec::new();
                 for (k, o) in others.iter().take(45).enumerate() {
                     if k == place {
+                        // exactly what a node does: validate against the blockstore's cached commitment
                         let cached = bs_cached(&bs, 5, *si);
-                        let _ = cached;
-                        feed.push(ValidatedShred::try_new(shred.clone(), None, &pk).expect("passes"));
+                        if let Ok(v) = ValidatedShred::try_new(shred.clone(), cached.as_ref(), &pk) {
+                            let (_, ev) = bs.add_diss(v);
+                            events.extend(ev);
+                        }
                     }
-                    feed.push(block.shreds[*si][*o].clone());
-                }
-                for s in feed {
-                    let (_, ev) = bs.add_diss(s);
+                    let (_, ev) = bs.add_diss(block.shreds[*si][*o].clone());
                     events.extend(ev);
                 }
                 // the other slice completely
